@@ -11,7 +11,7 @@ theorem length_dropWhile_le' (p : UInt8 → Bool) (l : Bytes) : (l.dropWhile p).
 
 theorem afterNl_length_le (tl : Bytes) : (afterNl tl).length ≤ tl.length := by
   unfold afterNl
-  have := length_dropWhile_le' (fun b => b != 10) tl
+  have := length_dropWhile_le' (fun b => b != 10 && b != 13) tl
   split
   · omega
   · rename_i h; rw [h] at this; simp at this; omega
